@@ -8,6 +8,7 @@ _MODULES = [
     "c07_hostile",
     "c09_body_stream",
     "c10_limits",
+    "c11_conditional",
     "c18_locals",
     "c19_devserver",
 ]
